@@ -69,8 +69,8 @@ def select(ctx, lines):
     obs = [x for x in items if x["a"]["op"] == "observe"]
     mut = [x for x in items if x["a"]["op"] != "observe"]
     scale = float(os.environ.get("VERIF_FS_SCALE", "1"))
-    n_obs = int(ctx.pick(6, 40) * scale)
-    n_mut = int(ctx.pick(450, 3000) * scale)
+    n_obs = int(ctx.pick(6, 60) * scale)
+    n_mut = int(ctx.pick(450, 4500) * scale)
     from vh.sut import fs_bind as B
     sel_obs, qcls = _cover_then_fill(
         obs, lambda it: {(q["op"] + B.variant(q), q["kind"], q["st"]) for q in it["a"]["v"]}, n_obs, ctx.rng("obs"))
